@@ -209,7 +209,7 @@ theorem rlFrom_step_gen (L : ReadLaws o) (size : Option Nat) (n : Nat) (hn : 1 â
     RLConcl L size f line
       (if line.contains LF then readlinePost (f, .ok (.brk line false))
        else match o.read f.s f.realpos n with
-        | (s', .error e) => readlinePost ({ f with s := s' }, .error e)
+        | (s', .error e) => readlinePost ({ f with s := s', rbuf := line }, .error e)
         | (s', .ok d) =>
           if d.isEmpty then
             readlinePost ({ f with s := s', rbuf := [], pos := f.pos + line.length }, .ok (.eof line))
@@ -265,7 +265,7 @@ theorem rlFromG_succ (o : Ops Ïƒ) (size : Option Nat) (fuel : Nat) (f : BF Ïƒ) (
    rlFromG o size (fuel+1) f line =
       if line.contains LF then readlinePost (f, .ok (.brk line false))
       else match o.read f.s f.realpos n with
-        | (s', .error e) => readlinePost ({ f with s := s' }, .error e)
+        | (s', .error e) => readlinePost ({ f with s := s', rbuf := line }, .error e)
         | (s', .ok d) =>
           if d.isEmpty then
             readlinePost ({ f with s := s', rbuf := [], pos := f.pos + line.length }, .ok (.eof line))
